@@ -39,6 +39,7 @@ def close(impl, want, tol):
 
 class C17(Prop):
     id = 'C17'
+    extracted = True      # arithmetic kernels regenerated from the current source (harness/extract.py, Extracted/Equiv*.lean)
     quick_cases = 1500
     thorough_cases = 30000
     quick_budget_s = 50
